@@ -16,7 +16,7 @@ CLAIMS = {
    technique='CBMC code contracts (DFCC) on extracted template bodies, capacity fixed per variant'),
  'C02': dict(level='other', design='6 C02',
    text='nextPoT proved for all n (bucket index always in range). Map::indexOf, set/operator(), remove, operator== verified as finite-map operations on every strictly sorted map of up to 8 int keys '
-        '(sortedness is a quantified hypothesis: constant bound). Map::add: one update per pair of the source, source storage not shared. HashMap and Set operator== by lookup (this <= 3 entries): equal iff same length and every entry found with an equal value. HashMap::Enumerator visits every entry of every bucket once (tables of up to 5 buckets); compare(String, String) is the byte-wise lexicographic order that separates a string from its proper prefixes (keys up to 4 bytes). HashMap::remove, operator[], find/has on a bucket chain of up to 3 colliding nodes: exactly the addressed node is unlinked/appended, all other colliding entries stay reachable, node freed once, length +-1.',
+        '(sortedness is a quantified hypothesis: constant bound). Map::add: one update per pair of the source, source storage not shared. HashMap and Set operator== by lookup (this <= 3 entries): equal iff same length and every entry found with an equal value. hash(String) / hash(Array<byte>) are free of signed overflow (keys up to 12 bytes); operator[] grows the table before it chooses the bucket; Set::notIn returns a new set. HashMap::Enumerator visits every entry of every bucket once (tables of up to 5 buckets); compare(String, String) is the byte-wise lexicographic order that separates a string from its proper prefixes (keys up to 4 bytes). HashMap::remove, operator[], find/has on a bucket chain of up to 3 colliding nodes: exactly the addressed node is unlinked/appended, all other colliding entries stay reachable, node freed once, length +-1.',
    note=TB + 'Level other: all functional units are bounded (<= 8 keys, chains <= 3). Rehash bucket placement is proved (HashMap_rehash_bin). Not decided: Set algebra, String keys, clone/merge. Histories by induction over the proved operations.',
    technique='CBMC code contracts (DFCC) with constant-bound sortedness / chain shape'),
  'C20': dict(level='proof', design='6 C20',
@@ -35,7 +35,7 @@ CLAIMS = {
  'C04': dict(level='other', design='6 C04',
    text='Var::operator=(const String&) for every scalar/string target and every string up to 12 characters (the 7/8 inline boundary: the 8-byte inline buffer is never overrun, the Var holds exactly the bytes); '
         'Var::operator== on strings for every combination of inline / heap representation (only the text matters, a string never equals a non-string); Var::operator=(const Var&) with the source an element of the target array '
-        '(no read of released storage, target equals the entry value, one reference dropped). Var::clone: strings/arrays/objects are detached (dup) before any child is replaced by its clone; Var::copy duplicates a heap string (arrays/objects are shared handles); Var(unsigned) holds its argument for all 2^32 values (proved).',
+        '(no read of released storage, target equals the entry value, one reference dropped). Var::clone: strings/arrays/objects are detached (dup) before any child is replaced by its clone; Var::copy duplicates a heap string (arrays/objects are shared handles); Var(unsigned) holds its argument for all 2^32 values; Var << x appends through the aliasing-safe Array append; extend copies every defined property (proved).',
    note=TB + 'Level other: all units are bounded (text lengths, 2-element arrays). Containers inside the Var are the C01 Array contracts executed as stubs. Not decided: numeric == lattice, Dic payloads, operator[] auto-vivification, conversions through atof.',
    technique='CBMC code contracts (DFCC) on extracted Var member functions with container contracts as stubs'),
  'C05': dict(level='proof', design='6 C05',
@@ -73,7 +73,7 @@ CLAIMS = {
    technique='CBMC code contracts (DFCC) per template instantiation, ghost-index byte specification'),
  'C17': dict(level='proof', design='6 C17',
    text='Only what asl itself computes: one turn of TextFile::readLine for lines of any length across the 255-byte chunks (buffer handed to fgets inside the capacity, indices in range, LF and one preceding CR cut, progress or exit each turn); '
-        'one turn of the UTF-16LE / UTF-16BE loops of text() (unit assembly in the file byte order, CR LF folding never shrinks an empty array); the plain branch of text() for every file size and read result; File::close closes once and drops the cached FileInfo; File::put opens for writing (create/truncate) also for an empty array; TextFile << const char* writes the text verbatim (never as a printf format); the BOM probe of text() starts the text at offset 3 exactly for EF BB BF and at 0 otherwise; the block loop of Directory::copy reports success only after every byte was written (any file size).',
+        'one turn of the UTF-16LE / UTF-16BE loops of text() (unit assembly in the file byte order, CR LF folding never shrinks an empty array); the plain branch of text() for every file size and read result; File::close closes once and drops the cached FileInfo; File::put opens for writing (create/truncate) also for an empty array; TextFile << const char* writes the text verbatim (never as a printf format); TextFile::write opens for writing also for the empty text; the UTF-16 to UTF-8 conversion used by text() is exact for every scalar value (C08 unit); the BOM probe of text() starts the text at offset 3 exactly for EF BB BF and at 0 otherwise; the block loop of Directory::copy reports success only after every byte was written (any file size).',
    note=TB + 'fgets/fread are stubs with their ISO C contracts; Strings/Arrays are ghost lengths with the C03/C01 contracts. NOT decided (theorems about the OS or outside the contract language): that written bytes come back from disk, size(), append/reopen histories, lines(), Directory copy/move, files containing NUL bytes.',
    technique='CBMC code contracts on extracted loop bodies with libc/OS calls as contract stubs'),
  'C19': dict(level='proof', design='6 C19',
